@@ -181,7 +181,9 @@ def _cargo_lock_into(d):
 
 def build_drive(flavor="dev"):
     """Build the driver against $VERIF_REPO (hooks on).  Returns the path of the binary.
-    flavor: dev | tsan | asan (the sanitizer flavours use the nightly toolchain)."""
+    flavor: dev | release | tsan | asan (the sanitizer flavours use the nightly toolchain;
+    release = optimised, debug assertions and overflow checks off - what a user's build script
+    gets under `cargo build --release`)."""
     repo_tag = hashlib.sha256(REPO.encode()).hexdigest()[:8]
     d = os.path.join(WORK, "drive-build-%s" % repo_tag)
     with Lock("drive-" + repo_tag + "-" + flavor):
@@ -195,6 +197,9 @@ def build_drive(flavor="dev"):
         if flavor == "dev":
             cmd += ["build", "--offline"]
             binp = os.path.join(tdir, "debug", "drive")
+        elif flavor == "release":
+            cmd += ["build", "--offline", "--release"]
+            binp = os.path.join(tdir, "release", "drive")
         elif flavor == "tsan":
             cmd = ["cargo", "+nightly", "build", "--offline", "-Zbuild-std",
                    "--target", "x86_64-unknown-linux-gnu"]
